@@ -273,7 +273,7 @@ Proof.
   intros HI Hh Hb. pose proof (inv_len w s c HI) as Hlen.
   destruct (topup_flush_spec w s c HI) as ((rs & Ho & Heq) & B2 & B3 & B4 & B5 & B6 & B7 & B8).
   pose proof (inv_has1 w s c HI Hh) as Hrc. pose proof (inv_prev w s c HI Hrc) as Hpv.
-  unfold close_run. set (s1 := topup_flush w s) in *.
+  unfold close_run. set (s1 := topup_flush w s) in *. clearbody s1.
   destruct (Nat.leb_spec 8 (e_rc s1)) as [G|L].
   - rewrite (flush_bitpack_nil w s1 (B8 G)).
     destruct (flush_rle_run w s1 rs Ho) as (F1 & F2 & F3 & F4 & F5); [lia|rewrite B4; exact Hpv|lia|].
@@ -293,24 +293,43 @@ Qed.
 Lemma repeat_snoc {A} (a : A) n : repeat a n ++ [a] = repeat a (S n).
 Proof. induction n as [|n IH]; cbn [repeat app]; [reflexivity|]. rewrite IH. reflexivity. Qed.
 
+(** the three shapes of state that [put] produces, over an abstract previous state *)
+Lemma inv_restart w (s1 : enc) c v rs : Out w s1 rs -> runs_vals rs ++ e_bp s1 = c ->
+  (length (e_bp s1) < 8)%nat -> small w (e_bp s1) -> v < 2 ^ N.of_nat w ->
+  Inv w (mkenc (e_out s1) v 1 true (e_bp s1)) (c ++ [v]).
+Proof.
+  intros Ho Heq Hl Hs Hv.
+  constructor; cbn [e_out e_bp e_rc e_prev e_has]; try assumption; try lia; try discriminate;
+    try (intros _; exact Hv).
+  exists rs. split; [exact Ho|]. cbn [repeat]. rewrite <- Heq, <- !app_assoc. reflexivity.
+Qed.
+
+Lemma inv_extend w (s : enc) c : Inv w s c -> e_has s = true -> e_prev s < 2 ^ N.of_nat w ->
+  Inv w (mkenc (e_out s) (e_prev s) (S (e_rc s)) true (e_bp s)) (c ++ [e_prev s]).
+Proof.
+  intros [(rs & Ho & Heq) Hl Hs Hp H0 H1] Hh Hv.
+  constructor; cbn [e_out e_bp e_rc e_prev e_has]; try assumption; try lia; try discriminate;
+    try (intros _; exact Hv).
+  exists rs. split; [exact Ho|]. rewrite <- repeat_snoc, <- Heq, <- !app_assoc. reflexivity.
+Qed.
+
+Lemma inv_first w (s : enc) c v : Inv w s c -> e_has s = false -> v < 2 ^ N.of_nat w ->
+  Inv w (mkenc (e_out s) v 1 true (e_bp s)) (c ++ [v]).
+Proof.
+  intros [(rs & Ho & Heq) Hl Hs Hp H0 H1] Hh Hv. destruct (H0 Hh) as [R0 B0].
+  apply (inv_restart w s c v rs); try assumption.
+  rewrite R0 in Heq. cbn [repeat] in Heq. rewrite app_nil_r in Heq. exact Heq.
+Qed.
+
 Lemma put_spec w s c v : Inv w s c -> v < 2 ^ N.of_nat w -> 2 * N.of_nat (length c) < 2 ^ 32 ->
   Inv w (put w s v) (c ++ [v]).
 Proof.
   intros HI Hv Hb. unfold put. destruct (e_has s) eqn:Hh; cbn [negb].
   - destruct (N.eqb_spec v (e_prev s)) as [->|Hne].
-    + destruct HI as [(rs & Ho & Heq) Hl Hs Hp H0 H1].
-      constructor; cbn [e_out e_bp e_rc e_prev e_has]; try assumption; try lia; try discriminate;
-        try (intros _; exact Hv).
-      exists rs. split; [exact Ho|]. rewrite <- repeat_snoc, <- Heq, <- !app_assoc. reflexivity.
+    + apply inv_extend; assumption.
     + destruct (close_run_spec w s c HI Hh Hb) as [((rs & Ho & Heq) & C2 & C3 & C4) C5].
-      constructor; cbn [e_out e_bp e_rc e_prev e_has]; try assumption; try lia; try discriminate;
-        try (intros _; exact Hv).
-      exists rs. split; [exact Ho|]. cbn [repeat]. rewrite <- Heq, <- !app_assoc. reflexivity.
-  - destruct HI as [(rs & Ho & Heq) Hl Hs Hp H0 H1]. destruct (H0 Hh) as [R0 B0].
-    constructor; cbn [e_out e_bp e_rc e_prev e_has]; try assumption; try lia; try discriminate;
-      try (intros _; exact Hv).
-    exists rs. split; [exact Ho|]. rewrite R0 in Heq. cbn [repeat] in *. rewrite app_nil_r in Heq.
-    rewrite <- Heq, <- !app_assoc. reflexivity.
+      cbv zeta. apply (inv_restart w (close_run w s) c v rs); assumption.
+  - apply inv_first; assumption.
 Qed.
 
 Lemma fold_put_spec w vs : forall s c, Inv w s c -> small w vs ->
@@ -332,7 +351,7 @@ Proof.
   - pose proof (inv_len w s c HI) as Hlen.
     destruct (topup_flush_spec w s c HI) as ((rs & Ho & Heq) & B2 & B3 & B4 & B5 & B6 & B7 & B8).
     pose proof (inv_has1 w s c HI Hh) as Hrc. pose proof (inv_prev w s c HI Hrc) as Hpv.
-    unfold flush. set (s1 := topup_flush w s) in *.
+    unfold flush. set (s1 := topup_flush w s) in *. clearbody s1.
     destruct (Nat.leb_spec 8 (e_rc s1)) as [G|L].
     + rewrite (flush_bitpack_nil w s1 (B8 G)).
       destruct (flush_rle_run w s1 rs Ho) as (F1 & F2 & F3 & F4 & F5); [lia|rewrite B4; exact Hpv|lia|].
@@ -343,7 +362,7 @@ Proof.
     + destruct (Nat.ltb_spec 0 (e_rc s1)) as [P|Z]; [|lia].
       destruct (add_literals_spec w (e_rc s1) s1 rs Ho B3 B2) as (rs' & A1 & A2 & A3 & A4 & A5 & A6 & A7).
       { intros _. rewrite B4. exact Hpv. }
-      set (s2 := add_literals w (e_rc s1) s1) in *.
+      set (s2 := add_literals w (e_rc s1) s1) in *. clearbody s2.
       destruct (e_bp s2) as [|x xs] eqn:E2.
       * rewrite (flush_bitpack_nil w s2 E2). exists rs', 0%nat. destruct A1 as [A1a A1b].
         repeat split; try assumption; try lia. cbn [repeat]. rewrite app_nil_r in A2 |- *. rewrite A2. exact Heq.
